@@ -32,6 +32,8 @@ MODEL_FUNCS = ["metabolize", "digest_glucose", "_detect_pathway", "_glycolysis",
                "_oxidative_phosphorylation", "_require_capabilities", "_beta_oxidation",
                "execute_tool_call", "engulf_tool", "register_function"]
 NUCLEUS_FUNCS = ["transcribe_with_tools"]
+# module-level primitives that the allow-list tables name (size-bounded arithmetic, since a9a4a4e)
+MODULE_FUNCS = ["_bounded_pow", "_bounded_mul", "_bounded_add", "_bounded_factorial"]
 
 
 class _Norm(ast.NodeTransformer):
@@ -275,6 +277,21 @@ def analyse(repo: Path) -> dict:
     for name in MODEL_FUNCS:
         f = _find_func(cls, name)
         shapes[name] = norm_dump(_strip_doc(f.body)) if f else "missing"
+    for name in MODULE_FUNCS:
+        f = next((n for n in tree.body if isinstance(n, ast.FunctionDef) and n.name == name), None)
+        shapes["module." + name] = norm_dump(_strip_doc(f.body)) if f else "missing"
+    bound = None
+    for st in tree.body:
+        if isinstance(st, ast.Assign) and len(st.targets) == 1 and isinstance(st.targets[0], ast.Name) \
+                and st.targets[0].id == "MAX_RESULT_BITS" and isinstance(st.value, ast.Constant) \
+                and isinstance(st.value.value, int):
+            bound = st.value.value
+    shapes["module.MAX_RESULT_BITS"] = str(bound)
+    for st in tree.body:
+        if isinstance(st, ast.Assign) and len(st.targets) == 1 and isinstance(st.targets[0], ast.Name) \
+                and st.targets[0].id == "MAX_SEQUENCE_ITEMS" and isinstance(st.value, ast.Constant):
+            shapes["module.MAX_SEQUENCE_ITEMS"] = str(st.value.value)
+    shapes.setdefault("module.MAX_SEQUENCE_ITEMS", "missing")
     m = _find_func(cls, "metabolize")
     out["print_guarded"] = bool(m) and _prints_guarded(m)
     dg = _find_func(cls, "digest_glucose")
